@@ -425,12 +425,86 @@ def _digit_text(t, item):
     return util.is_call(t) and t[1].endswith("std::string::ToString>::to_string") and len(t[2]) == 1 and strip(t[2][0]) == strip(item)
 
 
-def _append_of(step, acc, item):
+_DEC_MEMO = {}
+
+
+def decimal_appender(ctx, path):
+    """`path(s: &mut String, v: u8)` appends exactly the decimal text of v (what `Display for u8`
+    prints) to s and does nothing else - decided over the finite domain: for each of the 256
+    values the branches of the loop-free body are decided, and the characters pushed on the
+    chosen path, folded to constants, must spell str(v)."""
+    key = (id(ctx.fb), path)
+    if key in _DEC_MEMO:
+        return _DEC_MEMO[key]
+    _DEC_MEMO[key] = False
+    from symex import fold_consts
+    fb = ctx.fb
+    b = fb.body(path)
+    if b is None or b.arg_count != 2 or cfg.back_edges(b):
+        return False
+    t1, t2 = b.local_ty(1), b.local_ty(2)
+    if not (t1 is not None and t1.k == "ref" and t1.d.get("mut") and t1.to is not None and t1.to.s == "std::string::String" and t2 is not None and t2.s == "u8"):
+        return False
+    base = ctx.flat.run(path)
+    if base is None:
+        return False
+
+    def at(t, v):
+        return fold_consts(util.map_term(strip(t), lambda x: ("int", v, "u8") if x == ("param", 2) else None))
+
+    def char_code(t):
+        t = fold_consts(t)
+        for _ in range(4):
+            if util.is_call(t) and len(t[2]) == 1 and ("From<u8> for char" in t[1] or t[1] in util.IDENT_CALLS):
+                t = fold_consts(t[2][0])
+            elif t[0] == "cast" and t[1] in ("IntToInt", "IntToChar", "CharToInt"):
+                t = fold_consts(t[2])
+        return t[1] if t[0] == "int" else None
+
+    for v in range(256):
+        keep = {}
+        for bb, info in base.term_info.items():
+            if info.get("k") != "switch":
+                continue
+            d = at(info["discr"], v)
+            if d[0] != "int":
+                return False
+            keep[bb] = dict(info["targets"]).get(d[1], info["otherwise"])
+        vn = fb.pruned(path, "dec%d" % v, keep) if keep else path
+        vse = ctx.flat.run(vn) if vn else None
+        if vse is None or any(i.get("k") == "switch" for i in vse.term_info.values()):
+            return False
+        text = []
+        for bb in sorted(vse.term_info, key=lambda b_: (len(cfg.reachable(vse.body, start=b_)) * -1, b_)):
+            i = vse.term_info[bb]
+            if i.get("k") != "call":
+                continue
+            if i["name"] == "std::string::String::push" and i["locargs"][0][0] == "ref" and i["locargs"][0][1] == ("deref", ("param", 1)):
+                c = char_code(at(i["args"][1], v))
+                if c is None:
+                    return False
+                text.append(chr(c))
+            elif "From<u8> for char" in i["name"] or i["name"] in util.IDENT_CALLS:
+                continue
+            else:
+                return False
+        if "".join(text) != str(v):
+            return False
+        eff = vse.param_effects()
+        if set(eff) - {1}:
+            return False
+    _DEC_MEMO[key] = True
+    return True
+
+
+def _append_of(step, acc, item, ctx=None):
     """step = the accumulator after exactly one append of the digit text of `item` to `acc`"""
     step = strip(step)
     if step[0] != "after" or not util.is_call(step[1]) or step[2] != 0 or strip(step[3]) != strip(acc):
         return False
     c = step[1]
+    if ctx is not None and c[1] in ctx.fb.bodies and len(c[2]) == 2 and strip(c[2][1]) == strip(item) and decimal_appender(ctx, c[1]):
+        return True         # a crate helper that appends the decimal text of the byte (decided value by value)
     if c[1] in APPEND:
         return _digit_text(c[2][1], item)
     if c[1].endswith("fmt::Write::write_fmt") and len(c[2]) == 2:
@@ -463,7 +537,7 @@ def _renders(ctx, se, x, cell, depth=0):
         if cse is None or cfg.back_edges(cse.body):
             return False
         calls = [i for i in cse.term_info.values() if i.get("k") == "call" and not i["name"].endswith("::deref")]
-        return len(calls) == 2 and _append_of(cse.ret, ("param", 2), ("param", 3))
+        return len(calls) == 2 and _append_of(cse.ret, ("param", 2), ("param", 3), ctx)
     # loop form: the value is the accumulator phi of a for-loop over the cell
     if x[0] == "phi" and x[1] == se.fn:
         fi = algos.for_info(ctx, se)
@@ -476,7 +550,7 @@ def _renders(ctx, se, x, cell, depth=0):
                 if util.is_call(src_t, "core::slice::<impl [T]>::iter"):
                     src_t = strip(src_t[2][0])
                 init_s = strip(init)
-                return src_t == cell and util.is_call(init_s) and init_s[1] in EMPTY_STRING and _append_of(step, x, lp["elem"])
+                return src_t == cell and util.is_call(init_s) and init_s[1] in EMPTY_STRING and _append_of(step, x, lp["elem"], ctx)
     return False
 
 
